@@ -732,7 +732,8 @@ pub fn finish_response(
     };
     let limit = if spec.resp.close_delimited { stream.len() } else { stream.len() };
     let mut arrived = consumed;
-    let mut late = 0u32;
+    let entry = consumed;
+    let mut skipping_calls = 0u32;
     let mut guard = 0u32;
     let response = loop {
         guard += 1;
@@ -766,8 +767,8 @@ pub fn finish_response(
                     return Err(v("try_response consumed more than offered"));
                 }
                 if n > 0 {
-                    late += 1;
-                    if late > 1 {
+                    skipping_calls += 1;
+                    if skipping_calls > 1 {
                         return Err(v("more than one response skipped as a late 100"));
                     }
                 }
@@ -786,6 +787,19 @@ pub fn finish_response(
                 break r;
             }
         }
+    };
+    // "skipped exactly once" is a statement about bytes, not about calls: whether the late 100 is consumed by a call of its own
+    // (answering `None`) or by the call that also returns the real response is the library's business. What was consumed before
+    // the head that came back, beyond the head itself, is the skipped interim response.
+    let head_len = head_end - head_start;
+    let before_head = (consumed - entry).saturating_sub(head_len);
+    let interim_len = head_start - entry.min(head_start);
+    let late: u32 = if before_head == 0 {
+        0
+    } else if interim_len > 0 && before_head == interim_len {
+        1
+    } else {
+        return Err(format!("{} server bytes consumed before the response head that was returned ({} bytes long); an unconsumed interim response of {} bytes preceded it", before_head, head_len, interim_len));
     };
     if !rr.can_proceed() {
         return Err(v("response returned but RecvResponse::can_proceed() is false"));
